@@ -14,7 +14,8 @@ deregister):
   sub      get_data_consumer_its_aid ; append + last_checked
   unsub    get_data_consumer_its_aid ; copy ; remove (per match) -- the answer is what was removed (fix C16-unsubscribe-result)
   gc n     all ; all ; n × remove(row) ; all ; all            -- collect_trash (time-validity pass; rows are "expired" iff odd)
-  attend n copy ; n × (get_data_consumer_its_aid ; search ; last_checked section ; callback) ; removes
+  attend n copy ; n × (get_data_consumer_its_aid ; search ; still-stored section ; last_checked section ; callback) ; removes
+           -- (attend_subscription with fix C14-removed-subscription-not-notified: the membership test is its own section)
 Records are codes `2·payload + expiredBit` (`Nat`): the payload is what queries return, the bit stands for the record's
 timestamp / time validity; an update replaces the payload and keeps the bit (fix C12-update-keeps-record).  Registry keys, ids, subscription ids
 are `Nat`.  Tie to the source: `blocks_*`/`guarded_ldm` below (`decide` against `Generated.Locks`).
@@ -153,6 +154,9 @@ def subDrop (o sid : Nat) (s : LSt) : LSt :=
 def subPop (sid : Nat) (s : LSt) : LSt := { s with lastChk := upd s.lastChk sid false }
 def subRemove (o sid : Nat) (s : LSt) : LSt := subPop sid (subDrop o sid (subTest o sid s))
 def lastChkSection (sid : Nat) (s : LSt) : LSt := { s with lastChk := upd s.lastChk sid true }
+/-- `attend_subscription`: `with self._lock: if subscription not in self.subscriptions: return` (fix C14-removed-
+subscription-not-notified) – register 7 of the attendance pass: the subscription in register 5 is still stored -/
+def subStored (o : Nat) (s : LSt) : LSt := { s with reg := upd2 s.reg o 7 (if s.reg o 5 ∈ s.subs then 1 else 0) }
 
 /-! ## thread-local steps -/
 
@@ -207,14 +211,16 @@ def TI.erase : TI → Instr LSt
 def tsect (l : Lock) (i : TI) : List TI := [.acq l, i, .rel l]
 
 def gcIter (o : Nat) : List TI := [.loc (gcPick o)] ++ tsect lkDb (.gblk o 4 1 (gcRemove o))
-/-- one subscription of the attendance pass (with fix C14-no-callback-after-deregister): registration check first;
-search; `last_checked` section; callback – or mark for removal -/
+/-- one subscription of the attendance pass (with fixes C14-no-callback-after-deregister, C14-attendance-isolation,
+C14-removed-subscription-not-notified): registration check first; `attend_subscription` = search; still-stored
+section; `last_checked` section; callback – or mark for removal -/
 def attendIter (o : Nat) : List TI :=
   [.loc (subPick o)] ++ tsect lkSvc (.gblk o 4 1 (fun s => consHas o (s.reg o 5 / 100) s)) ++
   [.loc (whenReg o 4 1 (whenReg o 1 0 (markRemove o)))] ++
   tsect lkDb (.gblk o 4 1 (whenReg o 1 1 (dbAll o))) ++
-  tsect lkSvc (.gblk o 4 1 (whenReg o 1 1 (whenReg o 6 1 (fun s => lastChkSection (s.reg o 5) s)))) ++
-  [.gblk o 4 1 (whenReg o 1 1 (whenReg o 6 1 (callback o)))]
+  tsect lkSvc (.gblk o 4 1 (whenReg o 1 1 (whenReg o 6 1 (subStored o)))) ++
+  tsect lkSvc (.gblk o 4 1 (whenReg o 1 1 (whenReg o 6 1 (whenReg o 7 1 (fun s => lastChkSection (s.reg o 5) s))))) ++
+  [.gblk o 4 1 (whenReg o 1 1 (whenReg o 6 1 (whenReg o 7 1 (callback o))))]
 def attendRemove (o : Nat) : List TI :=
   [.loc (removePick o)] ++ tsect lkSvc (.gblk o 4 1 (fun s => subRemove o (s.reg o 5) s))
 
@@ -317,14 +323,16 @@ theorem search_locked :
 open Generated.LdmShape in
 /-- the block SEQUENCES `compileT` assumes for the multi-block operations are the synchronisation skeletons of the
 source (harness/gen_ldm_shape.py: lock sections, loops and lock-taking calls in source order):
-`attend` = snapshot section ; per subscription (registry copy ; search ; last-checked section) ; removals -
-the registry is read INSIDE the loop, after the snapshot; `upd` = exists ; get ; (get ; update); `del` = exists ;
+`attend` = snapshot section ; per subscription (registry copy ; `attend_subscription` = search ; still-stored section ;
+last-checked section) ; removals - the registry is read INSIDE the loop, after the snapshot; `upd` = exists ; get ; (get ; update); `del` = exists ;
 remove_by_id; `deregC` = discard+collect section ; removals; `unsub` = registry copy ; (copy section ; removals);
 `gc` = all ; (all ; per row remove) ; area pass ; all -/
 theorem skeletons :
     skeleton_LDMService_attend_subscriptions =
-      ["with _lock", "end", "loop", "call get_data_consumer_its_aid", "call search_data", "call order_search_results",
-       "call process_notifications", "endloop", "loop", "call remove_subscription", "endloop"] ∧
+      ["with _lock", "end", "loop", "call get_data_consumer_its_aid", "call attend_subscription", "endloop",
+       "loop", "call remove_subscription", "endloop"] ∧
+    skeleton_LDMService_attend_subscription =
+      ["call search_data", "call order_search_results", "with _lock", "end", "call process_notifications"] ∧
     skeleton_LDMService_process_notifications = ["with _lock", "end"] ∧
     skeleton_LDMService_remove_subscription = ["with _lock", "end"] ∧
     skeleton_LDMService_delete_subscription = ["with _lock", "end", "loop", "call remove_subscription", "endloop"] ∧
@@ -343,7 +351,7 @@ theorem skeletons :
     skeleton_LDMMaintenance_collect_trash =
       ["call get_all_data_containers", "call check_and_delete_time_validity", "call check_and_delete_area_of_maintenance",
        "call get_all_data_containers"] :=
-  ⟨rfl, rfl, rfl, rfl, rfl, rfl, rfl, rfl, rfl, rfl, rfl, rfl, rfl, rfl, rfl, rfl⟩
+  ⟨rfl, rfl, rfl, rfl, rfl, rfl, rfl, rfl, rfl, rfl, rfl, rfl, rfl, rfl, rfl, rfl, rfl⟩
 
 /-- no method stores into an object fetched from the data base: the in-memory back-end hands out the stored objects
 themselves, so a record (`Nat` code in the model) only ever changes through an `update` block under the database lock,
